@@ -659,16 +659,29 @@ impl NNum {
         match self {
             NNum::Int(a) => NInt::hash(&a, state),
             NNum::Rational(r) => {
-                // TODO: should we make rationals consistent with floats?
-                BigInt::hash(r.numer(), state);
-                if !r.denom().is_one() {
-                    BigInt::hash(r.denom(), state);
+                // Must agree with == across levels: an integral rational hashes like the int,
+                // and a rational that some float represents exactly hashes like that float.
+                if r.denom().is_one() {
+                    NInt::hash(&NInt::Big(r.numer().clone()), state);
+                } else {
+                    match r.to_f64().filter(|f| f.is_finite()) {
+                        Some(f) if BigRational::from_float(f).as_ref() == Some(&**r) => {
+                            consistent_hash_f64(f, state)
+                        }
+                        _ => {
+                            BigInt::hash(r.numer(), state);
+                            BigInt::hash(r.denom(), state);
+                        }
+                    }
                 }
             }
             NNum::Float(f) => consistent_hash_f64(*f, state),
             NNum::Complex(z) => {
+                // a complex number with zero imaginary part equals the real number
                 consistent_hash_f64(z.re, state);
-                consistent_hash_f64(z.im, state);
+                if z.im != 0.0 {
+                    consistent_hash_f64(z.im, state);
+                }
             }
         }
     }
